@@ -190,6 +190,13 @@ func c20Round(c *c20Case, dir string) error {
 		}
 	}
 	ids = append(ids, base...)
+	grow := 0
+	if c.Seed%3 == 1 {
+		grow = 60 // one round in three: a parent that keeps gaining children while it is being listed
+	}
+	for i := 0; i < grow; i++ {
+		ids = append(ids, fmt.Sprintf("g%d", i))
+	}
 	c.Init, c.Root, err = storeDump(nc, ids)
 	if err != nil {
 		return err
@@ -296,7 +303,35 @@ func c20Round(c *c20Case, dir string) error {
 			}
 		}(w)
 	}
-	nReaders := 3
+	if grow > 0 {
+		wg.Add(1)
+		go func() {
+			defer wg.Done()
+			gnc, err := nats.Connect(in.url, nats.Timeout(10*time.Second))
+			if err != nil {
+				atomic.AddInt32(&unanswered, 1)
+				return
+			}
+			defer gnc.Close()
+			for i := 0; i < grow; i++ {
+				id := fmt.Sprintf("g%d", i)
+				ops := []sOp{
+					{Kind: "ep", Node: id, Parent: "n1", Points: []sPoint{{Type: "tombstone", Time: tick()}, {Type: "nodeType", Time: tick(), Text: "variable"}}},
+					{Kind: "np", Node: id, Points: []sPoint{{Type: "value", Time: tick(), VBits: math.Float64bits(float64(i)), Origin: "grower"}}},
+				}
+				for _, op := range ops {
+					switch rc, _ := c20Request(gnc, op); rc {
+					case 2:
+						atomic.AddInt32(&unanswered, 1)
+						return
+					case 0:
+						ack(op)
+					}
+				}
+			}
+		}()
+	}
+	nReaders := 5
 	c.Readers = make([][]c20Read, nReaders)
 	var rwg sync.WaitGroup
 	for rd := 0; rd < nReaders; rd++ {
@@ -324,6 +359,16 @@ func c20Round(c *c20Case, dir string) error {
 					return
 				}
 				c.Readers[rd] = append(c.Readers[rd], c20Read{Node: n, Points: got})
+				// also list the children of a node that is gaining children meanwhile (the size of what the store
+				// has to fetch changes under the reader's feet); only "answered" is checked
+				listOf := targets[rr.Intn(len(targets))]
+				if grow > 0 {
+					listOf = "n1"
+				}
+				if _, err := client.GetNodes(rnc, listOf, "all", "", true); err != nil {
+					atomic.AddInt32(&unanswered, 1)
+					return
+				}
 				time.Sleep(time.Duration(rr.Intn(3)) * time.Millisecond)
 			}
 		}(rd)
